@@ -42,6 +42,11 @@ def programs(tier):
             ("xfer", ("sel", S, ("plit", False)), "it1"), ("xfer", ("leaf", "0s"), "it1"), ("mat", ("xfer", ("leaf", "0i"), "sq"))]
     out += [("xfer", ("leaf", "Is"), "it1"), ("xfer", ("leaf", "Ii"), "sq"), ("mat", ("xfer", ("leaf", "Ii"), "sq"), "mi"),
             ("xfer", ("dedup", ("proj", ("leaf", "Ii"), ())), "it2"), ("xfer", ("mat", ("xfer", ("leaf", "Is"), "it1"), "mi"), "it2")]
+    pX0, pS0 = ("proj", X, ()), ("proj", S, ())
+    exists = ("dedup", ("proj", ("sel", X, ("gt", meprogs.A, ("lit", "$k1"))), ()))
+    out += [("xfer", ("chain", ("leaf", "Ii"), pX0), "sq"), ("xfer", ("chain", pX0, ("leaf", "Ii")), "it2"), ("mat", ("chain", ("leaf", "Ii"), pX0), "mz"),
+            ("xfer", ("chain", ("leaf", "Is"), pS0), "it1"), ("xfer", ("chain", ("dedup", pX0), pX0), "sq"), ("xfer", ("chain", exists, pX0), "sq"),
+            ("dedup", ("xfer", ("chain", ("leaf", "Ii"), ("leaf", "Ii")), "sq")), ("xfer", ("mat", ("chain", pS0, ("leaf", "Is")), "mz"), "it1")]
     selS = ("sel", S, ("gt", meprogs.A, ("lit", "$k1")))
     selX = ("sel", X, ("gt", meprogs.A, ("lit", "$k1")))
     for empty, live, other in ((("leaf", "0s"), selS, "it1"), (("leaf", "0i"), selX, "sq"), (("leaf", "0i"), selX, "it2")):
